@@ -5,7 +5,7 @@
    with the real parse_conf + Config::from_tree and logs one record per configuration:
        ast  the abstract configuration (same shape as Config.tla's; ast.fault = the token the generator damaged)
        obs  [kind: "ok" | "parse-error" | "tree-error" | "panic", cfg: the loaded Config projected on the spec's
-             record, line: the line the error names]
+             record, nums: the numbers the error text contains besides file names - the line it names is one of them]
        tok  where the harness wrote the damaged token: [same_file: the error names the file that holds it,
              open / close / line: the line of its header, `}` or key line (0 = no such line), nlines of that file]
    TLC evaluates the same Meaning as everywhere else on every record. *)
@@ -29,7 +29,8 @@ Explains(r) ==
              /\ t.same_file
              /\ LET at == IF m.loc.part = "open" THEN t.open ELSE IF m.loc.part = "close" THEN t.close ELSE t.line IN
                 /\ at > 0
-                /\ IF m.loc.rule = "at" THEN o.line = at ELSE o.line >= at /\ o.line <= t.nlines + 3
+                /\ \E i \in 1..Len(o.nums) :            \* the numbers found in the error text, whatever its wording
+                      IF m.loc.rule = "at" THEN o.nums[i] = at ELSE o.nums[i] >= 1 /\ o.nums[i] <= t.nlines + 3
 
 TrInit == /\ cid = 1 /\ bad = <<>>
           /\ phase = "trace" /\ pstk = <<>> /\ sstk = <<>> /\ tree = N("Section", "", "", <<>>) /\ acc = NullCfg /\ res = Running
